@@ -124,9 +124,13 @@ func (x *runner) around() bool {
 	return x.put(ref, pdf.Integer(x.res.NOps))
 }
 
-// limitSweep writes every value of the kind by Put, as a member of WriteCompressed (between two
-// harmless members), inside a stream dictionary and by a Put that is deferred behind an open
-// stream; kinds 4..6 and 8..9 have sequences of their own.
+// limitSweep writes one value of the kind (LimitIdx) in one position (LimitPos): by Put, as a member
+// of WriteCompressed (between two harmless members), inside a stream dictionary, or by a Put that
+// is deferred behind an open stream; valid operations before and behind it.  Kinds 4..6 and 8..9
+// have sequences of their own.  A call the Writer refuses before it touches anything leaves it as
+// it was; a call that fails with part of an object written makes every later Put, OpenStream,
+// WriteCompressed and Close fail: which of the two it is shows in what is refused afterwards, and
+// the model has to predict it.
 func (x *runner) limitSweep(plan *Plan) bool {
 	kind := plan.Limit
 	plan.Limit = 0
@@ -144,50 +148,57 @@ func (x *runner) limitSweep(plan *Plan) bool {
 	case 9:
 		return x.limitCCITT(plan)
 	}
-	for i, v := range limitValues(kind) {
-		if !x.around() {
+	vals := limitValues(kind)
+	v := vals[plan.LimitIdx%len(vals)]
+	if !x.around() {
+		return false
+	}
+	switch plan.LimitPos % 4 {
+	case 0:
+		ref, ok := x.alloc()
+		if !ok || !x.put(ref, v) {
 			return false
 		}
-		pos := i % 4
-		if plan.LimitPos > 0 {
-			pos = (i + plan.LimitPos) % 4
+	case 1:
+		if _, isRef := v.(pdf.Reference); isRef {
+			v = pdf.Array{v}
 		}
-		if _, isRef := v.(pdf.Reference); isRef && pos == 1 {
-			pos = 0
-		}
-		switch pos {
-		case 0:
+		var refs []pdf.Reference
+		for j := 0; j < 3; j++ {
 			ref, ok := x.alloc()
-			if !ok || !x.put(ref, v) {
+			if !ok {
 				return false
 			}
-		case 1:
-			var refs []pdf.Reference
-			for j := 0; j < 3; j++ {
-				ref, ok := x.alloc()
-				if !ok {
-					return false
-				}
-				refs = append(refs, ref)
-			}
-			if !x.writeCompressed(refs, []pdf.Object{pdf.Integer(1), v, pdf.Name("last")}) {
-				return false
-			}
-		case 2:
-			sp := streamSpec{declShape: -1, haveFs: true, quiet: true, body: []byte("stream data"), dict: pdf.Dict{"V": v}}
-			if i%3 == 0 {
-				sp.fs = []pdf.Filter{pdf.FilterASCIIHex{}}
-			}
-			if !x.streamWith(plan, sp) {
-				return false
-			}
-		default:
-			// a Put behind an open stream
-			sp := streamSpec{declShape: -1, haveFs: true, quiet: true, body: []byte("outer"), dict: pdf.Dict{}, deferred: []pdf.Object{pdf.Integer(3), v}}
-			if !x.streamWith(plan, sp) {
-				return false
-			}
+			refs = append(refs, ref)
 		}
+		if !x.writeCompressed(refs, []pdf.Object{pdf.Integer(1), v, pdf.Name("last")}) {
+			return false
+		}
+	case 2:
+		sp := streamSpec{declShape: -1, haveFs: true, quiet: true, body: []byte("stream data"), dict: pdf.Dict{"V": v}}
+		if plan.LimitIdx%3 == 0 {
+			sp.fs = []pdf.Filter{pdf.FilterASCIIHex{}}
+		}
+		if !x.streamWith(plan, sp) {
+			return false
+		}
+	default:
+		// a Put behind an open stream
+		sp := streamSpec{declShape: -1, haveFs: true, quiet: true, body: []byte("outer"), dict: pdf.Dict{}, deferred: []pdf.Object{pdf.Integer(3), v}}
+		if !x.streamWith(plan, sp) {
+			return false
+		}
+	}
+	// what comes behind: a Put, a small batch, a stream
+	if !x.around() {
+		return false
+	}
+	r1, ok := x.alloc()
+	if !ok || !x.writeCompressed([]pdf.Reference{r1}, []pdf.Object{pdf.Name("behind")}) {
+		return false
+	}
+	if !x.streamWith(plan, streamSpec{declShape: -1, haveFs: true, quiet: true, body: []byte("behind"), dict: pdf.Dict{}}) {
+		return false
 	}
 	return x.around()
 }
@@ -277,6 +288,7 @@ func (x *runner) limitStrings(plan *Plan) bool {
 		}
 		return pdf.String(b)
 	}
+	// first the longest string that is written, then (the Writer fails for good) one byte more
 	for _, v := range []pdf.Object{mk(n), pdf.Array{mk(n + 1)}} {
 		if !x.around() {
 			return false
@@ -310,6 +322,9 @@ func (x *runner) limitCCITT(plan *Plan) bool {
 	return x.around()
 }
 
+// NumLimitValues is the number of values of a kind.
+func NumLimitValues(kind int) int { return len(limitValues(kind)) }
+
 // LimitSpecials: the sweeps as planned programs.
 func LimitSpecials(thorough bool) []Special {
 	var l []Special
@@ -319,10 +334,16 @@ func LimitSpecials(thorough bool) []Special {
 	}
 	cfgs := []Config{{VIdx: 7}, {VIdx: 4, HR: true}, {VIdx: 6, Encrypt: true}, {VIdx: 3, Seek: true}, {VIdx: 8, HR: true, Encrypt: true}, {VIdx: 5, Seek: true}}
 	for kind := 1; kind <= 3; kind++ {
-		for pos := 0; pos < 4; pos++ {
-			add(cfgs[(kind+pos)%len(cfgs)], Plan{Limit: kind, LimitPos: pos})
-			if thorough {
-				add(cfgs[(kind+pos+3)%len(cfgs)], Plan{Limit: kind, LimitPos: pos})
+		for idx := 0; idx < NumLimitValues(kind); idx++ {
+			for pos := 0; pos < 4; pos++ {
+				// every value in every position; the configuration rotates (with object streams and
+				// without, compact and human readable, encrypted), all of them in the thorough tier
+				add(cfgs[(kind+idx+pos)%len(cfgs)], Plan{Limit: kind, LimitIdx: idx, LimitPos: pos})
+				if thorough {
+					for k := 1; k < len(cfgs); k++ {
+						add(cfgs[(kind+idx+pos+k)%len(cfgs)], Plan{Limit: kind, LimitIdx: idx, LimitPos: pos})
+					}
+				}
 			}
 		}
 	}
@@ -332,22 +353,33 @@ func LimitSpecials(thorough bool) []Special {
 			add(cfg, Plan{Limit: 5})
 		}
 	}
+	// the last object numbers: the direct oracle only (the cross-reference section of the model
+	// walks through every number below /Size)
 	for pos := 0; pos < 5; pos++ {
-		add(Config{VIdx: 7, Seek: pos%2 == 0}, Plan{Limit: 6, LimitPos: pos})
+		// 0, 1: Close finds no number left; 2..4: it does (a cross-reference stream of 2^24 rows:
+		// seconds, so in the thorough tier)
+		if pos < 2 || thorough {
+			add(Config{VIdx: 7, Seek: pos%2 == 0}, Plan{Limit: 6, LimitPos: pos, NoModel: true})
+		}
 		if thorough {
-			add(Config{VIdx: 5, Encrypt: true}, Plan{Limit: 6, LimitPos: pos})
+			add(Config{VIdx: 5, Encrypt: true}, Plan{Limit: 6, LimitPos: pos, NoModel: true})
 		}
 	}
-	add(Config{VIdx: 7}, Plan{Limit: 7})
-	add(Config{VIdx: 4, HR: true}, Plan{Limit: 7, LimitPos: 1})
-	if thorough {
-		add(Config{VIdx: 6, Encrypt: true}, Plan{Limit: 7, LimitPos: 2})
-		add(Config{VIdx: 5, Seek: true}, Plan{Limit: 7, LimitPos: 3})
+	// sizes of arrays and dictionaries (values of megabytes): Put of the largest array / dictionary
+	// that is written and of the next larger one, with the model; everything else in the thorough tier
+	for idx := 0; idx < NumLimitValues(7); idx++ {
+		if thorough {
+			for pos := 0; pos < 4; pos++ {
+				add(cfgs[(idx+pos)%len(cfgs)], Plan{Limit: 7, LimitIdx: idx, LimitPos: pos})
+			}
+		} else if idx == 0 || idx == 1 || idx == 3 || idx == 4 {
+			add(cfgs[idx%2], Plan{Limit: 7, LimitIdx: idx, LimitPos: idx % 2})
+		}
 	}
 	// strings: the direct oracle only (the extracted model works on lists of numbers)
 	add(Config{VIdx: 7}, Plan{Limit: 8, LimitPos: 40, NoModel: true})
-	add(Config{VIdx: 6, Encrypt: true}, Plan{Limit: 8, LimitPos: 0, NoModel: true}) // AES: 16 MiB - 41 bytes become 16 MiB - 8
 	if thorough {
+		add(Config{VIdx: 6, Encrypt: true}, Plan{Limit: 8, LimitPos: 0, NoModel: true}) // AES: 16 MiB - 41 bytes become 16 MiB - 8
 		add(Config{VIdx: 4, HR: true}, Plan{Limit: 8, LimitPos: 40, NoModel: true})
 		add(Config{VIdx: 4, Encrypt: true}, Plan{Limit: 8, LimitPos: 40, NoModel: true})
 		for pos := 0; pos < 40; pos += 3 {
@@ -355,7 +387,7 @@ func LimitSpecials(thorough bool) []Special {
 		}
 	}
 	for pos := 0; pos < 10; pos++ {
-		if pos%5 < 2 || thorough {
+		if pos%5 == 0 || thorough {
 			add(Config{VIdx: 7}, Plan{Limit: 9, LimitPos: pos, NoModel: true})
 		}
 	}
